@@ -14,26 +14,13 @@ ASSUMPTIONS = [
 ]
 
 
-def worker(case):
-    probs = []
-    ad, n = _hier.prepare(case)
-    s = core.sdn()
+def one_round(n, tag, probs):
+    """uniquify once with every clause of the property; returns "raised" if it raised, else None."""
     from spydrnet.uniquify import uniquify
-
-    variant = case[2] if len(case) > 2 else None
-    if variant == "name-clash":
-        # a sibling already carries the name the renaming counter will produce first
-        lib = n.libraries[0]
-        for d in list(lib.definitions):
-            if not elab.is_leaf_def(d) and d is not n.top_instance.reference:
-                lib.create_definition(name="%s_sdn_unique_0" % d.name)
-    key = _hier.key_of(case, n)
     e0 = elab.Elab(n)
     tree0, part0 = e0.tree(), e0.endpoint_partition()
     before_defs = {id(d): d for l in n.libraries for d in l.definitions}
     libs_of = {d.name: d.library for d in before_defs.values()}
-    nontriv = _hier.sharing(e0)
-    tag = "%s:%s" % (case[0][0], variant or case[0][2])
     try:
         uniquify(n)
     except Exception as ex:
@@ -41,7 +28,7 @@ def worker(case):
         bad = wf.wf_netlist(n)
         if bad:
             probs.append(("uniquify-raised-and-left-malformed:%s" % tag, str(bad[0])))
-        return {"key": key, "nontrivial": nontriv, "outcome": "raised", "problems": probs, "transitions": 1}
+        return "raised"
     e1 = elab.Elab(n)
     tree1, part1 = e1.tree(), e1.endpoint_partition()
     if set(tree0) != set(tree1):
@@ -69,6 +56,45 @@ def worker(case):
                 base = d.name.split("_sdn_unique_")[0] if d.name else None
                 if base not in libs_of or libs_of[base] is not l:
                     probs.append(("new-definition-in-wrong-library:" + tag, "%s in %s" % (d.name, l.name)))
+    return None
+
+
+def worker(case):
+    probs = []
+    ad, n = _hier.prepare(case)
+    s = core.sdn()
+    from spydrnet.uniquify import uniquify
+
+    variant = case[2] if len(case) > 2 else None
+    if variant == "name-clash":
+        # a sibling already carries the name the renaming counter will produce first
+        lib = n.libraries[0]
+        for d in list(lib.definitions):
+            if not elab.is_leaf_def(d) and d is not n.top_instance.reference:
+                lib.create_definition(name="%s_sdn_unique_0" % d.name)
+    key = _hier.key_of(case, n)
+    tag = "%s:%s" % (case[0][0], variant or case[0][2])
+    nontriv = _hier.sharing(elab.Elab(n))
+    res = one_round(n, tag, probs)
+    if res is not None:
+        return {"key": key, "nontrivial": nontriv, "outcome": "raised", "problems": probs, "transitions": 1}
+    if variant == "second-round":
+        # not from the initial state: definitions named like the next generated names appear, the cells are shared
+        # again, and uniquify runs a second time in the same process
+        top = n.top_instance.reference
+        lib = top.library
+        nonleaf = [d for d in list(lib.definitions) if not elab.is_leaf_def(d) and d is not top]
+        for d in nonleaf:
+            base = d.name.split("_sdn_unique_")[0]
+            taken = set(x.name for x in lib.definitions)
+            for k in range(8):
+                if "%s_sdn_unique_%d" % (base, k) not in taken:
+                    lib.create_definition(name="%s_sdn_unique_%d" % (base, k))
+        for i, d in enumerate(nonleaf):
+            top.create_child(name="again_%d" % i, reference=d)
+        res = one_round(n, tag + ":round-2", probs)
+        if res is not None:
+            return {"key": key, "nontrivial": True, "outcome": "raised", "problems": probs, "transitions": 2}
     # idempotence
     w = World()
     w.add(n)
@@ -98,6 +124,8 @@ def cases(tier):
         # definitions reshaped after they were instanced (ports added last-to-first, in front)
         if desc[0] in ("K2-shared", "K8-bus", "K10-wire-only-shared") or (tier == "thorough" and desc[0] in ("K6-shared-two-depths",)):
             out.append((desc, "asc", "late-ports"))
+        if desc[0] in ("K2-shared", "K7-shared-both") and (tier == "thorough" or sum(desc[1]) % 11 == 0):
+            out.append((desc, "asc", "second-round"))
     return out
 
 
